@@ -26,6 +26,8 @@ func runC20(c *Ctx) {
 	// the watcher maps the I/O error Upgrade returns: Upgrade must hand it back unchanged
 	dialerUpgradeRules(c, "C20")
 	c20DialConn(c)
+	// the poisoned deadline ends the handshake only if readLine hands the read error back
+	readLineRules(c, "C20")
 }
 
 func c20Dial(c *Ctx) {
